@@ -123,9 +123,9 @@ func c10Cases(tier string) []c10Case {
 	for _, cx := range c10Contexts() {
 		wide := cx.name == "root" || cx.name == "block-selfrefs"
 		for tn := range c10Types {
-			exprs := gen.TypedExprs(tn, depth, cx.self)
+			exprs := gen.TypedExprs(tn, depth, true)
 			if !wide {
-				exprs = gen.TypedExprs(tn, 1, cx.self)
+				exprs = gen.TypedExprs(tn, 1, true)
 			}
 			for _, e := range exprs {
 				add(cx, "any_"+tn, e, true)
@@ -135,9 +135,9 @@ func c10Cases(tier string) []c10Case {
 				}
 			}
 		}
-		strs := gen.TypedExprs("string", depth, cx.self)
+		strs := gen.TypedExprs("string", depth, true)
 		if !wide {
-			strs = gen.TypedExprs("string", 1, cx.self)
+			strs = gen.TypedExprs("string", 1, true)
 		}
 		for i, e := range strs {
 			// Reference: only a whole-value traversal is a reference
